@@ -32,6 +32,26 @@ CHECKS["C06"] = dict(
     note="Trusted: gcc 12 -O0 on x86-64 as the C semantics (plain char signed); the AM's step rules (DESIGN 3.4); data contexts are a finite menu of boundary values per variable, "
          "not all values; valuations with C undefined behaviour are skipped; programs are corpus + feature programs + a slice of the bounded universe.")
 
+CHECKS["C07"] = dict(
+    category="model_checking",
+    technique="explicit-state product search: compiled regex machine x Brzozowski-derivative automaton built from our own regex AST, to a fixpoint, for every regex AST up to a size bound",
+    text="Every regex AST up to the size bound over a menu of atoms (literals, escapes, classes, inverted sets, ranges, wildcard; text and binary spelling) with "
+         "sequence, alternation, groups, ? * + {n} {n,m} {n,} is printed, compiled, and the reachable states of (abstract machine of `parser { /re/; }`) x (derivative "
+         "automaton) are explored over the low/high byte of every source class; accepting <=> nullable, FAIL exactly at the first byte whose derivative is dead, "
+         "DONE only when nothing longer exists, and end() of the twin `/re/; end;` returns DONE <=> nullable (so wildcards/inverted sets never match end-of-input). "
+         "Language equality is decided exactly per regex (fixpoint), not by sampling strings; a slice of the BFS witness paths is replayed on the C.",
+    design_ref="DESIGN.md section 4, C07",
+    note="Trusted: the derivative construction (nv/deriv.py) and our reading of the class escapes; AM bound to the C by C06; regex size bound and atom menu (small scope); repeat counts <= 3.")
+CHECKS["C05"] = dict(
+    category="model_checking",
+    technique="explicit-state bisimulation of the -O0 machine and each optimised machine on observable event streams with a one-position lead buffer, plus C replays of the BFS witnesses",
+    text="For every program and every option set (levels, each optimisation flag alone / removed, all subsets in the thorough tier, thresholds) the unoptimised and the optimised "
+         "abstract machines are explored jointly to a fixpoint (or a reported state cap): hook calls with visible outputs, appends, yields, breaks, finishes, consumption points, "
+         "result codes and final outputs must agree, allowing exactly what the property allows: an action between two consumed bytes may fire one step earlier/later (hook argument "
+         "may then differ), DONE may be postponed to the following call, events pending at a FAIL may or may not have run. BFS witness inputs are replayed on C binaries built at -O0, -O2, -O3.",
+    design_ref="DESIGN.md section 4, C05 and nv/bisim.py",
+    note="Trusted: the AM (bound to C by C06); the slack rules in nv/bisim.py; byte representatives from the union partition of both machines; capped pairs are reported as capped.")
+
 NOT_YET = {
 }
 
